@@ -3,7 +3,7 @@ From Coq Require Import List ZArith NArith Bool.
 Import ListNotations.
 From GS Require Import Num EventLoop Kernel Sim.
 From GS Require Import NumZ Sim ExampleKit.
-From GS.Proofs Require Import Aux SimP SimP3 TraceSpec TimerSpec.
+From GS.Proofs Require Import Aux SimP SimP3 TraceSpec TimerSpec QueueRel TickChain.
 
 Section C12.
 Context {F : Type} (A : ArithOps F) {PS : Type} (cfg : scfg F)
@@ -55,6 +55,20 @@ Proof.
   simpl. apply Nat.ltb_lt in Hn. rewrite Hn. reflexivity.
 Qed.
 
+(** WHOLE RUNS: the mobility updates executed by a run from build() -- any protocol, bounds, fuel -- happen at
+    0 + i, (0 + i) + i, ((0 + i) + i) + i, ... for the update interval i ([chain]: each executed update is due
+    exactly at the expected instant, and the next expected instant is that one plus the interval, computed
+    by the same floating-point addition as the code): the first is due one interval after the start, each
+    schedules the next, nothing else schedules or removes an update, at most one is pending at any time.
+    With C12_update_requests (an update requests one telemetry per node, due at the update's own time, in node
+    order) and the callback-cause theorems above: every node gets exactly one telemetry callback per executed
+    update, at that update's time. *)
+Theorem C12_updates_at_consecutive_multiples (OL : OrderLaws A) (c : kcfg F) fuel ps0 :
+  let '(s0, i0) := sim_start A cfg ps0 in
+  let '(s', items, fin) := k_run A (sim_hooks A cfg react) c fuel s0 in
+  chain A cfg (fadd A (f0 A) (c_rate cfg)) (tick_times items).
+Proof. exact (whole_run_ticks A OL cfg react c fuel ps0). Qed.
+
 End C12.
 
 (** Non-vacuity: two nodes, interval 1, duration 3: one telemetry per node per update, at 1, 2, 3, in node
@@ -75,3 +89,4 @@ Print Assumptions C12_telemetry_callback.
 Print Assumptions C12_first_update.
 Print Assumptions C12_telemetry_callback_only_from_its_event.
 Print Assumptions C12_telemetry_event_calls_back.
+Print Assumptions C12_updates_at_consecutive_multiples.
